@@ -32,6 +32,8 @@ STALL = 10.0           # seconds the harness waits for a worker to become quiesc
 FIN_TIMEOUT = 0.05     # the "finite timeout" handed to *_wait / close (workers are quiescent when it is used)
 FREE_TIMEOUT = 0.4     # the same in free-running mode (no quiescence control: generous against scheduling noise)
 FREE_PAUSE = 0.12      # free-running mode: pause between operations
+STAG_T = 1.5           # staggered-answer cases: the timeout, generous against machine load (seconds)
+STAG_MARGIN = 0.4      # ... and how long before the straggler's answer a TimeoutError must have been raised
 FREE_WAKE = 0.8        # free-running mode: a blocked call lets sleeping workers wake up after this long
 # number of exception kinds injected: 0-3 have one-argument constructors; 4 (UnicodeDecodeError) and 5 (a user type
 # with a two-argument constructor) need the worker's exception instance to be re-raised as it is
@@ -297,8 +299,11 @@ class Run:
                 return lambda: v.step_async(acts)
             return lambda: v.call_async("ping")
         ft = FREE_TIMEOUT if self.free else FIN_TIMEOUT
+
+        def tmo(x):                               # True -> the mode's standard finite timeout; a number -> seconds
+            return (float(x) if is_num(x) else ft) if x else None
         if k == "wait":
-            t = ft if op[2] else None
+            t = tmo(op[2])
             return {"reset": lambda: v.reset_wait(t), "step": lambda: v.step_wait(t), "call": lambda: v.call_wait(t)}[op[1]]
         if k == "callbad":
             return lambda: v.call_async("reset")
@@ -308,11 +313,15 @@ class Run:
             fin, term = op[1], op[2]
             kw = {}
             if fin:
-                kw["timeout"] = ft
+                kw["timeout"] = tmo(fin)
             if term:
                 kw["terminate"] = True
             return lambda: v.close(**kw)
         raise ValueError(op)
+
+
+def is_num(x):
+    return isinstance(x, (int, float)) and not isinstance(x, bool)
 
 
 def classify_exc(e):
@@ -453,7 +462,7 @@ def cq_bool(b):
 
 
 def cq_behav(b):
-    return {"normal": "Normal", "sleep": "Sleep", "die": "Die"}.get(b[0]) or f"Raise {int(b[1])}"
+    return {"normal": "Normal", "sleep": "Sleep", "die": "Die", "delay": "Sleep"}.get(b[0]) or f"Raise {int(b[1])}"
 
 
 def cq_op(op):
@@ -634,6 +643,25 @@ class C13(vlib.Driver):
         rng.shuffle(fam_e)
         for plans, ops in fam_e[: (24 if quick else len(fam_e))]:
             cases.append({"plans": plans, "ops": ops, "fam": "free", "mode": "free"})
+        # (G) staggered readiness in pipe order (free-running, real delays): worker answers after d_i seconds; with the
+        #     shared deadline a wait/close with timeout T gives up at T as soon as max d_i > T, however the others are staggered
+        T = STAG_T
+        stag = []
+        for kind in KINDS:
+            stag.append(([1.0, 2.3], [["async", kind], ["wait", kind, T], ["close", False, False]]))
+        stag.append(([1.0, 0.0, 2.3], [["async", "step"], ["wait", "step", T], ["close", False, True]]))
+        stag.append(([0.6, 1.2, 2.3], [["async", "call"], ["wait", "call", T], ["close", False, False]]))
+        stag.append(([1.0, 2.3], [["async", "reset"], ["close", T, False]]))
+        stag.append(([0.7, 1.0, 2.3], [["async", "step"], ["close", T, False]]))
+        stag.append(([0.4, 0.9], [["async", "step"], ["wait", "step", T], ["close", False, False]]))     # control: all in time
+        if not quick:
+            for kind in KINDS:
+                stag.append(([2.3, 1.0], [["async", kind], ["wait", kind, T], ["close", False, False]]))   # straggler first
+                stag.append(([1.0, 2.3, 0.2], [["async", kind], ["close", T, False]]))
+                stag.append(([0.3, 1.1, 0.8], [["async", kind], ["wait", kind, T], ["close", T, False]]))  # control
+        for ds, ops in stag:
+            cases.append({"plans": [[["delay", d]] if d else [] for d in ds], "ops": ops, "fam": "staggered",
+                          "mode": "free", "stag": ds})
         for c in cases:
             c["ops"] = self.prune(c["ops"])
         self.prefetch(cases)
@@ -682,6 +710,17 @@ class C13(vlib.Driver):
 
     # ---------- model term
     def coq_term(self, case, obs):
+        if case.get("stag") is not None:
+            # staggered answers: the timed poll loop of the model predicts the outcome of the first wait
+            tr = obs["trace"]
+            if len(tr) >= 2 and tr[1]["op"][0] == "wait" and tr[0]["out"] == "Ok":
+                r = tr[1]
+                oc = f"CO_Exc {r['code']}" if r["out"] == "Exc" else OUT[r["out"]]
+                plans = "[" + "; ".join("[" + "; ".join(cq_behav(b) for b in p) + "]" for p in case["plans"]) + "]"
+                cs = lambda x: str(int(round(float(x) * 100)))          # centiseconds
+                return (f"check_staggered {plans} {KD[r['op'][1]]} {cs(r['op'][2])} "
+                        f"[{'; '.join(cs(d) for d in case['stag'])}] {oc} {ST.get(r['state'], 'DEFAULT')}")
+            return None
         if case.get("mode") == "free":
             return None                            # real interleavings: the oracle only
         tr = obs["trace"]
@@ -751,6 +790,23 @@ class C13(vlib.Driver):
                     out.append(Violation("misuse-rejected", f"misuse:no-async-call:{op[1]}",
                                          f"{where} in state `{sb}`: outcome {r['out']} ({r['exc']}), state {sb}->{r['state']}"))
                 continue
+            # ---- staggered answers: the timeout is one shared deadline for all pipes
+            if case.get("stag") is not None and ((k == "wait" and is_num(op[2])) or (k == "close" and is_num(op[1]) and sb != "default")):
+                T = float(op[2] if k == "wait" else op[1])
+                late = [d for d in case["stag"] if d > T]
+                if late:
+                    if k == "wait" and r["out"] != "Timeout":
+                        out.append(Violation("timeout-reported", f"timeout:not-reported:{op[1]}:staggered",
+                                             f"{where}: workers answer after {case['stag']} s, timeout {T} s: outcome {r['out']} ({r['exc']}) after {r['dt']} s "
+                                             "instead of TimeoutError (the deadline must be shared by all pipes)"))
+                    elif r["dt"] >= min(late) - STAG_MARGIN:
+                        out.append(Violation("timeout-reported" if k == "wait" else "close-total",
+                                             f"timeout:late:{op[1]}:staggered" if k == "wait" else "close:timeout-exceeded:staggered",
+                                             f"{where}: workers answer after {case['stag']} s, timeout {T} s: the call took {r['dt']} s "
+                                             f"(it waited for the straggler instead of giving up at {T} s)"))
+                elif k == "wait" and r["out"] == "Timeout":
+                    out.append(Violation("timeout-reported", f"timeout:spurious:{op[1]}:staggered",
+                                         f"{where}: every worker answers within {case['stag']} s < {T} s but the call timed out"))
             # ---- legal calls
             if r["out"] == "Hang":
                 if k == "close":
@@ -846,6 +902,8 @@ class C13(vlib.Driver):
         return hashlib.sha1(ckey(case).encode()).hexdigest()
 
     def nontrivial(self, case, obs):
+        if case.get("stag") is not None:
+            return True
         for r in obs["trace"]:
             if r["op"][0] in ("kill", "callbad"):
                 return True
